@@ -9,7 +9,7 @@ export PATH=/opt/veriftools/go1.26.8/bin:$PATH GOFLAGS=-mod=mod GOPROXY=off GOTO
 ./setup.sh >/dev/null
 bin/kyverif gen-gates C02 C04 C06 C07 C08 C09 C10 C11 C12 C13 C14 C15 C16 C17 C19
 bin/kyverif gen-flow C02 C03 C06 C14 C18
-bin/kyverif gen-mustwrite C01 C04 C09 C10 C11 C12 C15 C19
+bin/kyverif gen-mustwrite C01 C02 C04 C07 C08 C09 C10 C11 C12 C13 C14 C15 C19
 bin/kyverif gen-freshret
 rm -f tables/mincounts.json
 fail=0
